@@ -55,16 +55,23 @@ PROPS["C01"] = dict(
     title="Parse accepts exactly RFC 8259 and reports failure coherently",
     rule=("inputs: every byte string of length<=2, every length-3 string over a 24-byte JSON alphabet, length 4 (thorough: <=6) "
           "over a 12-byte alphabet, generated documents x leading pad 0..63, every prefix, every position x 33-byte palette "
-          "replacement, random multi-mutations, hostile shapes (bracket floods, deep nesting, long tokens); each parsed with the "
+          "replacement, random multi-mutations, numbers around the overflow threshold and other range edges in every spelling, hostile "
+          "shapes (bracket floods, deep nesting, long tokens); prefixes and mutations repeated with the heap pre-filled with ] and }; each parsed with the "
           "pooling and the malloc/free allocator and judged against the reference recogniser; distinct = 64-bit hash of the input "
           "bytes, inputs of length<=1 are the trivial class"),
     runs=[
         dict(name="asan-hsw", src="parse_harness.cpp", cfg="asan-hsw", args=["--prop", "C01"], env=ASAN_ENV),
+        # truncated / mutated texts again with the heap pre-filled with ']' and '}': if the parser ever consumes a byte of
+        # the padded copy that was never written, a truncated text is accepted
+        dict(name="asan-hsw-fill-5d", src="parse_harness.cpp", cfg="asan-hsw", env=fill_env(0x5d),
+             args=["--prop", "C01", "--streams", "all_prefixes,random_mutations,alpha24_len3"]),
+        dict(name="asan-hsw-fill-7d", src="parse_harness.cpp", cfg="asan-hsw", env=fill_env(0x7d),
+             args=["--prop", "C01", "--streams", "all_prefixes,random_mutations,alpha24_len3"]),
         dict(name="prod-wsm", src="parse_harness.cpp", cfg="prod-wsm", args=["--prop", "C01"], env={}, tiers=("thorough",)),
         dict(name="asanub-hsw", src="parse_harness.cpp", cfg="asanub-hsw", args=["--prop", "C01"], env=ASAN_ENV, tiers=("thorough",)),
     ],
     require=["accepted", "reject:structural", "reject:infinity", "reject:string-fault", "bytes_le2", "all_prefixes",
-             "every_pos_x_palette", "oracle-selftest:accepted-by-all", "oracle-selftest:rejected-by-all"],
+             "every_pos_x_palette", "oracle-selftest:accepted-by-all", "oracle-selftest:rejected-by-all", "number_range_edges"],
     assumptions=["reference recogniser (harness/common/jmodel.h) implements RFC 8259 and the property's string/number rules; "
                  "it is cross-checked against RapidJSON/nlohmann/strtod by the oracle self-test",
                  "glibc strtod is correctly rounded (decides overflow)"],
